@@ -65,3 +65,7 @@ Definition op_eqb (a b : op) : bool :=
   end.
 
 Definition is_tx (o : op) : bool := match o with OTx _ _ _ => true | _ => false end.
+(* a snapshot operation: executed, it REPLACES the state by its body (ApplySnapshot).  Clients create one, of the
+   initial state, when a datatype is made; the server stores the creator's as the first operation of the log. *)
+Definition is_snap (o : op) : bool := match o with OSnap _ => true | _ => false end.
+Definition no_snap (l : list op) : Prop := Forall (fun o => is_snap o = false) l.
